@@ -265,6 +265,11 @@ func (w *sworld) evalRelation(rc *search.RelationConstraint, pn blob.Ref, at tim
 	}
 	good, bad := 0, 0
 	for _, r := range rel {
+		if _, indexed := w.typ[r]; !indexed {
+			// a relative the index has never seen satisfies no constraint (as for valueInSet)
+			bad++
+			continue
+		}
 		if w.eval(sub, r) {
 			good++
 		} else {
